@@ -22,9 +22,15 @@ impl ProxyHeader { pub fn proxied_address(&self) -> Option<&ProxiedAddress> { se
 /// harness-decided outcome of header parsing
 #[derive(Clone, Copy, Debug)]
 pub enum HeaderVerdict { Invalid, Local, Proxied(SocketAddr) }
-pub static mut HEADER_VERDICT: HeaderVerdict = HeaderVerdict::Invalid;
-pub static mut PARSE_CALLS: u32 = 0;
-pub static mut LAST_CONFIG: Option<ParseConfig> = None;
+macro_rules! global { ($name:ident, $set:ident, $get:ident, $t:ty, $init:expr) => {
+    static mut $name: $t = $init;
+    /// setter/getter live in the defining crate: Kani mis-handles writes to another crate's `static mut`
+    pub fn $set(v: $t) { unsafe { $name = v; } }
+    pub fn $get() -> $t { unsafe { $name } }
+} }
+global!(HEADER_VERDICT, set_header_verdict, header_verdict, HeaderVerdict, HeaderVerdict::Invalid);
+global!(PARSE_CALLS, set_parse_calls, parse_calls, u32, 0);
+global!(LAST_CONFIG, set_last_config, last_config, Option<ParseConfig>, None);
 
 pub mod io {
     use super::*;
